@@ -52,7 +52,56 @@ pub enum JsonMut {
     DropKey(u16),
     /// duplicate the k-th array element
     DupElem(u16),
+    /// character-level edit of the k-th string leaf
+    EditStr(u16, CharEdit),
 }
+
+/// Character-level edit of a valid notation: `what % 4` = replace / insert /
+/// delete / truncate at the (scaled) character position, with the
+/// `what / 4`-th replacement character (multi-byte characters, separators,
+/// digits, invisible characters).
+#[derive(Clone, Debug, Serialize, Deserialize)]
+pub struct CharEdit {
+    pub pos: u16,
+    pub what: u8,
+}
+
+const REPL: &[&str] = &["é", "€", "𝄞", "\u{0}", "-", " ", "/", "=", ">", "0", "9", "A", "z", ".", ":", ",", "\u{feff}", "\u{202e}", "Ⅷ", "٣", "％", "ß", "\u{301}", "+", "%", "\"", "\\", "<", "&", "#"];
+
+pub fn edit_chars(s: &str, edits: &[CharEdit]) -> String {
+    let mut cs: Vec<char> = s.chars().collect();
+    for e in edits {
+        let r = REPL[(e.what as usize / 4) % REPL.len()];
+        let i = idx(e.pos, cs.len() + 1);
+        match e.what % 4 {
+            0 if i < cs.len() => {
+                cs.splice(i..i + 1, r.chars());
+            }
+            0 | 1 => {
+                cs.splice(i..i, r.chars());
+            }
+            2 if i < cs.len() => {
+                cs.remove(i);
+            }
+            2 => {}
+            _ => cs.truncate(i),
+        }
+    }
+    cs.into_iter().collect()
+}
+
+pub fn char_edit() -> impl Strategy<Value = CharEdit> {
+    (any::<u16>(), any::<u8>()).prop_map(|(pos, what)| CharEdit { pos, what })
+}
+
+const VALID_TEXT: &[(&str, &[&str])] = &[
+    ("RoaPayload", &["10.0.0.0/16-18 => 64496", "2001:db8::/32 => 64497", "10.1.0.0/24 => 0", "10.0.0.0/8-32 => 4294967295"]),
+    ("AspaDef", &["AS64496 => AS64497, AS64498", "AS64500 => <none>", "AS65000 => AS65001"]),
+    ("Resources", &["AS64496-AS64500", "10.0.0.0/12, 10.32.0.0-10.47.255.255", "2001:db8::/32"]),
+    ("Handle", &["c1", "some-handle_1", "p"]),
+    ("BgpsecKey", &["ROUTER-0000FBF0-6E3B8B4F5DCD0F4A5E0A8F3F0B0E0D0C0B0A0908", "ROUTER-00010000-17316903F0671229E8808BA8E8AB0105FA915A07"]),
+    ("Uri", &["rsync://krill.example.org/repo/c1/0/file.roa", "rsync://krill.example.org/repo/"]),
+];
 
 #[derive(Clone, Debug, Serialize, Deserialize)]
 pub enum JsonKind {
@@ -87,6 +136,8 @@ pub enum In {
     SignedRaw { to6492: bool, bytes: Vec<u8> },
     Json { kind: JsonKind, muts: Vec<JsonMut> },
     Text { kind: TextKind, a: u8, b: u8, c: u8, glue: u8 },
+    /// a valid notation with character-level edits
+    TextEdit { kind: TextKind, seed: u8, edits: Vec<CharEdit> },
 }
 
 #[derive(Clone, Debug, Serialize, Deserialize)]
@@ -300,6 +351,18 @@ pub fn mutate_json(mut v: Value, muts: &[JsonMut]) -> Value {
                     unsafe { *p = nasty_json(*n) };
                 }
             }
+            JsonMut::EditStr(s, e) => {
+                let mut ls = Vec::new();
+                leaves(&mut v, &mut ls);
+                let strs: Vec<*mut Value> = ls.into_iter().filter(|p| unsafe { (**p).is_string() }).collect();
+                if !strs.is_empty() {
+                    let p = strs[idx(*s, strs.len())];
+                    unsafe {
+                        let cur = (*p).as_str().unwrap_or("").to_string();
+                        *p = Value::String(edit_chars(&cur, std::slice::from_ref(e)));
+                    }
+                }
+            }
             JsonMut::DropKey(s) => {
                 let mut cs = Vec::new();
                 containers(&mut v, true, &mut cs);
@@ -376,6 +439,7 @@ pub fn json_mut() -> impl Strategy<Value = JsonMut> {
         8 => (any::<u16>(), any::<u8>()).prop_map(|(a, b)| JsonMut::Leaf(a, b)),
         1 => any::<u16>().prop_map(JsonMut::DropKey),
         1 => any::<u16>().prop_map(JsonMut::DupElem),
+        4 => (any::<u16>(), char_edit()).prop_map(|(a, b)| JsonMut::EditStr(a, b)),
     ]
 }
 
@@ -399,7 +463,8 @@ fn input() -> impl Strategy<Value = In> {
         1 => (any::<bool>(), vec(any::<u8>(), 0..200)).prop_map(|(to6492, bytes)| In::Raw { to6492, bytes }),
         2 => (any::<bool>(), vec(any::<u8>(), 0..200)).prop_map(|(to6492, bytes)| In::SignedRaw { to6492, bytes }),
         8 => (jk, vec(json_mut(), 0..4)).prop_map(|(kind, muts)| In::Json { kind, muts }),
-        4 => (tk, any::<u8>(), any::<u8>(), any::<u8>(), 0u8..6).prop_map(|(kind, a, b, c, glue)| In::Text { kind, a, b, c, glue }),
+        4 => (tk.clone(), any::<u8>(), any::<u8>(), any::<u8>(), 0u8..6).prop_map(|(kind, a, b, c, glue)| In::Text { kind, a, b, c, glue }),
+        6 => (tk, any::<u8>(), vec(char_edit(), 1..3)).prop_map(|(kind, seed, edits)| In::TextEdit { kind, seed, edits }),
     ]
 }
 
@@ -515,7 +580,22 @@ impl Run {
                 }
             }
             In::Json { kind, muts } => self.json(kind, muts),
-            In::Text { kind, a, b, c, glue } => self.text(kind, *a, *b, *c, *glue),
+            In::Text { kind, a, b, c, glue } => {
+                let g = ["", " ", " => ", "-", "/", ", "][*glue as usize % 6];
+                let s = format!("{}{g}{}{g}{}", nasty(*a), nasty(*b), nasty(*c));
+                self.text(kind, s, [nasty(*a), nasty(*b), nasty(*c)])
+            }
+            In::TextEdit { kind, seed, edits } => {
+                let name = format!("{kind:?}");
+                let seeds = VALID_TEXT.iter().find(|(k, _)| *k == name).map(|(_, v)| *v).unwrap_or(&["x"]);
+                let pick = seeds[*seed as usize % seeds.len()];
+                let s = edit_chars(pick, edits);
+                // resource sets: one of the three parts is edited
+                let mut parts = [seeds[0].to_string(), seeds.get(1).unwrap_or(&"").to_string(), seeds.get(2).unwrap_or(&"").to_string()];
+                let k = *seed as usize % 3;
+                parts[k] = edit_chars(&parts[k].clone(), edits);
+                self.text(kind, s, parts)
+            }
         }
     }
 
@@ -526,7 +606,7 @@ impl Run {
         let base = match kind {
             JsonKind::Roa => serde_json::json!({"added": [{"asn": 64496, "prefix": "10.0.0.0/16", "max_length": 18, "comment": "x"}, {"asn": 64497, "prefix": "2001:db8::/32"}], "removed": []}),
             JsonKind::Aspa => serde_json::json!({"add_or_replace": [{"customer": 64496, "providers": [64497, 64498]}], "remove": []}),
-            JsonKind::Bgpsec => serde_json::json!({"add": [{"asn": 64496, "csr": csr}], "remove": []}),
+            JsonKind::Bgpsec => serde_json::json!({"add": [{"asn": 64496, "csr": csr}], "remove": ["ROUTER-0000FBF0-6E3B8B4F5DCD0F4A5E0A8F3F0B0E0D0C0B0A0908"]}),
             JsonKind::AddChild => serde_json::json!({"handle": "c3", "resources": {"asn": "AS64530", "ipv4": "10.128.0.0/16", "ipv6": ""}, "id_cert": idc}),
             // one part per request: krill applies the parts of a child update as separate
             // commands, so a request with several parts can be applied partially by design
@@ -616,9 +696,7 @@ impl Run {
         }
     }
 
-    fn text(&mut self, kind: &TextKind, a: u8, b: u8, c: u8, glue: u8) -> StepRes {
-        let g = ["", " ", " => ", "-", "/", ", "][glue as usize % 6];
-        let s = format!("{}{g}{}{g}{}", nasty(a), nasty(b), nasty(c));
+    fn text(&mut self, kind: &TextKind, s: String, parts: [String; 3]) -> StepRes {
         let label = format!("text-{kind:?}");
         let kind = kind.clone();
         self.request(&label, move |sw| match kind {
@@ -636,7 +714,7 @@ impl Run {
                 Ok(())
             }
             TextKind::Resources => {
-                let r = rpki::repository::resources::ResourceSet::from_strs(&nasty(a), &nasty(b), &nasty(c)).map_err(|e| e.to_string())?;
+                let r = rpki::repository::resources::ResourceSet::from_strs(&parts[0], &parts[1], &parts[2]).map_err(|e| e.to_string())?;
                 let _ = r.to_string();
                 let req = krill::api::admin::UpdateChildRequest::resources(r);
                 sw.w.child_update(PARENT, CHILDREN[1], req)
